@@ -867,6 +867,14 @@ def _intersect(subset, superset):
     return np.where((superset >= subset.min()) & (superset <= subset.max()))
 
 
+def _fill_array(fill_value, wave, commonwave):
+    """Return the fill values on commonwave for a spectrum defined on wave."""
+    if np.ndim(fill_value) == 0:
+        return fill_value * np.ones(commonwave.shape)
+    below, above = fill_value
+    return np.where(commonwave < wave.min(), below, above) * np.ones(commonwave.shape)
+
+
 def _interp_common(s1, s2, sampling, method, fill_value):
     """Return a common wavelength basis with appropriately interpolated and
     padded value arrays for s1 and s2.
@@ -932,9 +940,10 @@ def _interp_common(s1, s2, sampling, method, fill_value):
     s2_samplevalue = s2.sample(s2_wave, method=method, fill_value=fill_value,
                                waveunit=waveunit)
 
-    # create nominal value arrays
-    s1_value = fill_value * np.ones(commonwave.shape)
-    s2_value = fill_value * np.ones(commonwave.shape)
+    # create nominal value arrays (a two-element fill value is (below, above)
+    # each operand's own wavelength range, as in Spectrum.sample)
+    s1_value = _fill_array(fill_value, s1.wave, commonwave)
+    s2_value = _fill_array(fill_value, s2.wave, commonwave)
 
     # insert the sampled values into the appropriate slots
     s1_value[s1_index] = s1_samplevalue
